@@ -115,6 +115,8 @@ struct net : public verif::listener
     {
         lits["T"] = TRUE_lit;
         lits["F"] = FALSE_lit;
+        ivars["t0"] = 0; // the origin of both difference-logic theories
+        rvars["t0"] = 0;
     }
 
     void ev(const std::string &s)
